@@ -9,6 +9,7 @@
 (*   {"ev":"flush","n","attr":[[url segs, endpoint segs]..]}   attr = what the plugin's URL tree answers, right after the     *)
 (*                       flush, for the URLs of the flushed records                                                      *)
 (*   {"ev":"scrape","samples":[{n,l,v,p}..]}  {"ev":"reload",...,"code"}  {"ev":"final"}             *)
+(*   {"ev":"tick","d"}   the (mock) clock moves on by d seconds                                                          *)
 (*   {"ev":"collect"}    one collection tick of the access-log based histogram managers                                  *)
 (*   {"ev":"crash"}      the engine process died                                                                        *)
 (* Every step is always enabled; `verdict` = the first law of P the observation breaks ("ok" otherwise), `drift` = the  *)
@@ -21,16 +22,20 @@ tvars == <<l, h, g, verdict, drift, devs>>
 Ev == TraceLog[l + 1]
 Consume(name) == l < TraceLen /\ Ev.ev = name /\ l' = l + 1
 
-SampleSet(ev) == {[n |-> s.n, l |-> SeqSet(s.l), v |-> s.v, p |-> s.p, sum |-> s.sum] : s \in SeqSet(ev.samples)}
+\* (a label with an empty value is no label to Prometheus)
+SampleSet(ev) == {[n |-> s.n, l |-> {kv \in SeqSet(s.l) : kv[2] # ""}, v |-> s.v, p |-> s.p, sum |-> s.sum] : s \in SeqSet(ev.samples)}
 
 AvgFams == {"avg_flow_execution_time", "avg_processor_execution_time"}
-Strip(s) == [n |-> s.n, l |-> s.l, v |-> IF s.n \in AvgFams THEN s.p ELSE s.v]
+\* the model has no clock (an average time is just positive or not) and computes the mean size exactly (the engine in float64)
+Strip(s) == [n |-> s.n, l |-> s.l, v |-> IF s.n \in AvgFams THEN s.p ELSE IF s.n = "api_call_size" THEN 0 ELSE s.v]
+SizesAgree(S, M) == \A s \in S, m \in M : s.n = "api_call_size" /\ m.n = "api_call_size" => Abs(s.v - m.v) <= 1
 \* histogram sums: float32 averages against exact fractions, one unit per observation
 SumsAgree(S, M) == \A s \in S, m \in M : s.n = m.n /\ s.l = m.l /\ s.n \in HistFams => Abs(s.sum - m.sum) * 1000 <= s.v + 1000
 DriftOf(S, M) ==
     LET a == {Strip(s) : s \in {x \in S : x.n \in KnownFams}}
         b == {Strip(s) : s \in M}
-    IN  IF a = b THEN (IF SumsAgree(S, M) THEN "ok" ELSE "a histogram sum differs from the model's")
+    IN  IF a = b THEN (IF ~SumsAgree(S, M) THEN "a histogram sum differs from the model's"
+                       ELSE IF ~SizesAgree(S, M) THEN "api_call_size differs from the model's" ELSE "ok")
         ELSE IF a \ b # {} THEN "exported but not by the model: " \o (CHOOSE s \in a \ b : TRUE).n
         ELSE "missing, the model exports: " \o (CHOOSE s \in b \ a : TRUE).n
 
@@ -75,6 +80,11 @@ TCollect ==
     /\ h' = PCollect(h) /\ g' = ICollect(g)
     /\ verdict' = "ok" /\ drift' = "ok" /\ devs' = {}
 
+TTick ==
+    /\ Consume("tick")
+    /\ h' = PTick(h, Ev.d) /\ g' = ITick(g, Ev.d)
+    /\ verdict' = "ok" /\ drift' = "ok" /\ devs' = {}
+
 TReload ==
     /\ Consume("reload")
     /\ h' = PReload(h, Ev) /\ g' = IReload(g, Ev)
@@ -91,7 +101,7 @@ TFinal ==
     /\ verdict' = "ok" /\ drift' = "ok" /\ devs' = {}
     /\ UNCHANGED <<h, g>>
 
-TNext == TReset \/ TStart \/ TTxn \/ TFlush \/ TScrape \/ TCollect \/ TReload \/ TCrash \/ TFinal
+TNext == TReset \/ TStart \/ TTxn \/ TFlush \/ TScrape \/ TCollect \/ TTick \/ TReload \/ TCrash \/ TFinal
 TraceSpec == TInit /\ [][TNext]_tvars
 
 Accept == verdict = "ok"
